@@ -267,6 +267,11 @@ impl ParContext {
 
 impl Fill for ParContext {
     fn fill_interleaved(&mut self, interleaved: &[i32]) -> Result<(), SourceError> {
+        if interleaved.is_empty() {
+            // An empty block is the stop signal of the hashing thread; an empty fill
+            // changes nothing as in `Context::fill_interleaved`.
+            return Ok(());
+        }
         let bps = self.bytes_per_sample;
         self.bytebuf.resize(interleaved.len() * bps, 0u8);
         i32s_to_le_bytes(interleaved, &mut self.bytebuf, bps);
@@ -275,7 +280,11 @@ impl Fill for ParContext {
     }
 
     fn fill_le_bytes(&mut self, bytes: &[u8], bytes_per_sample: usize) -> Result<(), SourceError> {
-        if !bytes.is_empty() && bytes_per_sample != self.bytes_per_sample {
+        if bytes.is_empty() {
+            // see `fill_interleaved`.
+            return Ok(());
+        }
+        if bytes_per_sample != self.bytes_per_sample {
             // same check as in `Context::fill_le_bytes`.
             return Err(SourceError::by_reason(SourceErrorReason::InvalidBuffer));
         }
